@@ -360,6 +360,8 @@ impl LpgStore {
     #[cfg(not(feature = "tiered-storage"))]
     pub fn create_node_versioned(&self, labels: &[&str], epoch: EpochId, tx_id: TxId) -> NodeId {
         let id = NodeId::new(self.next_node_id.fetch_add(1, Ordering::Relaxed));
+        #[cfg(grafeo_verif)]
+        grafeo_common::verif::yield_point("lpg.create_node.after_alloc");
 
         let mut record = NodeRecord::new(id, epoch);
         record.set_label_count(labels.len() as u16);
@@ -369,6 +371,8 @@ impl LpgStore {
         for label in labels {
             let label_id = self.get_or_create_label_id(*label);
             node_label_set.insert(label_id);
+            #[cfg(grafeo_verif)]
+            grafeo_common::verif::yield_point("lpg.create_node.after_label_id");
 
             // Update label index
             let mut index = self.label_index.write();
@@ -376,10 +380,17 @@ impl LpgStore {
                 index.push(FxHashMap::default());
             }
             index[label_id as usize].insert(id, ());
+            #[cfg(grafeo_verif)]
+            {
+                drop(index);
+                grafeo_common::verif::yield_point("lpg.create_node.after_label_index");
+            }
         }
 
         // Store node's labels
         self.node_labels.write().insert(id, node_label_set);
+        #[cfg(grafeo_verif)]
+        grafeo_common::verif::yield_point("lpg.create_node.after_node_labels");
 
         // Create version chain with initial version
         let chain = VersionChain::with_initial(record, epoch, tx_id);
@@ -697,7 +708,11 @@ impl LpgStore {
             drop(nodes); // Release lock before removing properties
             drop(index);
             drop(node_labels);
+            #[cfg(grafeo_verif)]
+            grafeo_common::verif::yield_point("lpg.delete_node.after_mark");
             self.remove_node_from_property_indexes(id);
+            #[cfg(grafeo_verif)]
+            grafeo_common::verif::yield_point("lpg.delete_node.after_property_indexes");
             self.node_properties.remove_all(id);
 
             // Note: Caller should use delete_node_edges() first if detach is needed
@@ -1391,9 +1406,13 @@ impl LpgStore {
             return false;
         }
         drop(nodes);
+        #[cfg(grafeo_verif)]
+        grafeo_common::verif::yield_point("lpg.add_label.after_check");
 
         // Get or create label ID
         let label_id = self.get_or_create_label_id(label);
+        #[cfg(grafeo_verif)]
+        grafeo_common::verif::yield_point("lpg.add_label.after_label_id");
 
         // Add to node_labels map
         let mut node_labels = self.node_labels.write();
@@ -1405,6 +1424,8 @@ impl LpgStore {
 
         label_set.insert(label_id);
         drop(node_labels);
+        #[cfg(grafeo_verif)]
+        grafeo_common::verif::yield_point("lpg.add_label.after_node_labels");
 
         // Add to label_index
         let mut index = self.label_index.write();
@@ -1494,6 +1515,8 @@ impl LpgStore {
             return false;
         }
         drop(nodes);
+        #[cfg(grafeo_verif)]
+        grafeo_common::verif::yield_point("lpg.remove_label.after_check");
 
         // Get label ID
         let label_id = {
@@ -1503,6 +1526,8 @@ impl LpgStore {
                 None => return false, // Label doesn't exist
             }
         };
+        #[cfg(grafeo_verif)]
+        grafeo_common::verif::yield_point("lpg.remove_label.after_label_id");
 
         // Remove from node_labels map
         let mut node_labels = self.node_labels.write();
@@ -1514,6 +1539,8 @@ impl LpgStore {
             return false;
         }
         drop(node_labels);
+        #[cfg(grafeo_verif)]
+        grafeo_common::verif::yield_point("lpg.remove_label.after_node_labels");
 
         // Remove from label_index
         let mut index = self.label_index.write();
@@ -1681,14 +1708,22 @@ impl LpgStore {
         tx_id: TxId,
     ) -> EdgeId {
         let id = EdgeId::new(self.next_edge_id.fetch_add(1, Ordering::Relaxed));
+        #[cfg(grafeo_verif)]
+        grafeo_common::verif::yield_point("lpg.create_edge.after_alloc");
         let type_id = self.get_or_create_edge_type_id(edge_type);
+        #[cfg(grafeo_verif)]
+        grafeo_common::verif::yield_point("lpg.create_edge.after_type_id");
 
         let record = EdgeRecord::new(id, src, dst, type_id, epoch);
         let chain = VersionChain::with_initial(record, epoch, tx_id);
         self.edges.write().insert(id, chain);
+        #[cfg(grafeo_verif)]
+        grafeo_common::verif::yield_point("lpg.create_edge.after_edges");
 
         // Update adjacency
         self.forward_adj.add_edge(src, dst, id);
+        #[cfg(grafeo_verif)]
+        grafeo_common::verif::yield_point("lpg.create_edge.after_forward");
         if let Some(ref backward) = self.backward_adj {
             backward.add_edge(dst, src, id);
         }
@@ -1912,12 +1947,18 @@ impl LpgStore {
             chain.mark_deleted(epoch);
 
             drop(edges); // Release lock
+            #[cfg(grafeo_verif)]
+            grafeo_common::verif::yield_point("lpg.delete_edge.after_mark");
 
             // Mark as deleted in adjacency (soft delete)
             self.forward_adj.mark_deleted(src, id);
+            #[cfg(grafeo_verif)]
+            grafeo_common::verif::yield_point("lpg.delete_edge.after_forward");
             if let Some(ref backward) = self.backward_adj {
                 backward.mark_deleted(dst, id);
             }
+            #[cfg(grafeo_verif)]
+            grafeo_common::verif::yield_point("lpg.delete_edge.after_backward");
 
             // Remove properties
             self.edge_properties.remove_all(id);
